@@ -345,6 +345,11 @@ def h_layout() -> bool:
     """
     post: _
     """
+    return layout_body()
+
+
+def layout_body():
+    # (no contract of its own: CrossHair would otherwise *assume* it when called from C01's harness)
     parts = CASE.split(":")
     n, f, p, m = int(parts[0][1:]), int(parts[1][1:], 16), int(parts[2][1:]), int(parts[3][1:])
     L = int(parts[4][1:]) if len(parts) > 4 else 8
